@@ -6,6 +6,7 @@
    sequence, so every statement below quantifies over all interleavings. *)
 From Coq Require Import List NArith Bool Arith.
 From GL Require Import Conc.WriteMerge Conc.WriteMergeProofs Gen.InstC10 Corr.C10Run Conc.WriteMergeTrace.
+From GL Require Import Conc.WriteMergeData Corr.C10DataRun.
 Import ListNotations.
 
 (* 1. mutex: at most one process is between lock acquisition and release / hand-over — counting
@@ -200,4 +201,271 @@ Example C10_close_stranded_by_setreadonly :
   | Some s => lock s = true /\ cwl s = true /\ hpc s = HExit /\ ropend s = 0 /\ step wmp s ACloseLock = None
   | None => False
   end.
+Proof. vm_compute. repeat split; reflexivity. Qed.
+
+(* ======================================================================================== *)
+(* 8. THE DATA of the protocol (Conc/WriteMergeData.v, layered over the system above: every run of
+      the data-carrying system projects to a run of the base system, so theorems 1-7 apply to it).
+      Each request carries (writer id, kind Put/Delete/Write, number of records, internalLen,
+      effective sync flag); the leader carries batches / ourBatch / sync / seq; the journal log is
+      the list of writeJournal calls (ok?, seq, records in file order, sync argument); the memdb
+      order is the list of putMem insertions.  All statements: the code as it is (v_real), any
+      number of writers, any request table, any merge-limit constants, every reachable state. *)
+From GL Require Import Conc.WriteMergeDataProofs Conc.WriteMergeDataTheorems.
+
+Theorem C10_data_run_is_base_run : forall mp rq n q0 x,
+  xreachable mp v_real rq n q0 x -> reachable mp n (xb x).
+Proof. exact data_run_is_base_run. Qed.
+Print Assumptions C10_data_run_is_base_run.
+
+(* 8.1 the record written by a leader contains exactly its group: the k-th record of the data log
+       belongs to the k-th writeJournal call of the base log, whose batches are the group in MERGE
+       order (leader :: the writers told `true`, theorem 5).  The record is a permutation of the
+       group without repetition, the leader's records come first, Write(batch) members keep their
+       merge order and so do Put/Delete members (regrouped into ourBatch as the code does — the
+       code's comment: "concurrent write doesn't guarantee write order"), and every member
+       contributes as many records as its request has. *)
+Theorem C10_group_record_is_group : forall mp rq n q0 x, xreachable mp v_real rq n q0 x ->
+  Forall2 (record_of_group rq) (djl (xd x)) (jlog (xb x)).
+Proof. exact group_record_is_group. Qed.
+Print Assumptions C10_group_record_is_group.
+
+(*     across the run: no request is in two records nor twice in one (failed writes included) ... *)
+Theorem C10_no_request_journalled_twice : forall mp rq n q0 x, xreachable mp v_real rq n q0 x ->
+  NoDup (concat (map rec_ids (djl (xd x)))).
+Proof. exact no_request_journalled_twice. Qed.
+Print Assumptions C10_no_request_journalled_twice.
+
+Theorem C10_request_in_one_record : forall mp rq n q0 x i k1 k2 r1 r2, xreachable mp v_real rq n q0 x ->
+  nth_error (djl (xd x)) k1 = Some r1 -> nth_error (djl (xd x)) k2 = Some r2 ->
+  In i (rec_ids r1) -> In i (rec_ids r2) -> k1 = k2.
+Proof. exact request_in_one_record. Qed.
+Print Assumptions C10_request_in_one_record.
+
+(*     ... and none is lost: whoever holds a nil result (received, or returned) is in a record whose
+       write succeeded; being a statement about every reachable state it holds in the state where the
+       result has just been received: the record was written before the result was sent. *)
+Theorem C10_acked_request_is_journalled : forall mp rq n q0 x i w, xreachable mp v_real rq n q0 x ->
+  nth_error (ws (xb x)) i = Some w -> (pc w = WRet ROk \/ pc w = WDone ROk) ->
+  exists r, In r (djl (xd x)) /\ dr_ok r = true /\ In i (rec_ids r).
+Proof. exact acked_request_is_journalled. Qed.
+Print Assumptions C10_acked_request_is_journalled.
+
+(* 8.2 writeJournal's sync argument is the OR of the members' flags ... *)
+Theorem C10_group_sync_is_or : forall mp rq n q0 x r, xreachable mp v_real rq n q0 x -> In r (djl (xd x)) ->
+  dr_sync r = existsb (fun i => rq_sync (rq i)) (rec_ids r).
+Proof. exact group_sync_is_or. Qed.
+Print Assumptions C10_group_sync_is_or.
+
+(*     ... hence every writer that asked for Sync and got nil is in a SYNCED record (written and
+       synced before its result was sent, as above) *)
+Theorem C10_sync_ack_implies_synced : forall mp rq n q0 x i w, xreachable mp v_real rq n q0 x ->
+  nth_error (ws (xb x)) i = Some w -> (pc w = WRet ROk \/ pc w = WDone ROk) -> rq_sync (rq i) = true ->
+  exists r, In r (djl (xd x)) /\ dr_ok r = true /\ In i (rec_ids r) /\ dr_sync r = true.
+Proof. exact sync_ack_implies_synced. Qed.
+Print Assumptions C10_sync_ack_implies_synced.
+
+(* 8.3 sequence numbers: a reader of the journal numbers the records of a record consecutively from
+       the header's seq, in record order (= merge order up to the ourBatch regrouping, 8.1); the
+       putMem loop (per batch, seq += batch.Len()) assigns exactly these numbers; and the memdb is
+       filled in journal order: its insertions are the numbering of the successfully written records,
+       in order (all of them unless a leader is between writeJournal and its putMem loop). *)
+Theorem C10_seq_order_is_merge_order : forall mp rq n q0 x, xreachable mp v_real rq n q0 x ->
+  (forall r, In r (djl (xd x)) ->
+     consecutive (dr_seq r) (rec_numbering r) /\ map (fun t => fst (fst t)) (rec_numbering r) = rec_ids r) /\
+  (forall q bs, put_all q bs = put_batch q (concat bs)) /\
+  (exists rest, dmem (xd x) ++ rest = numbering_all (djl (xd x))) /\
+  ((forall l wl, nth_error (ws (xb x)) l = Some wl -> isapply (pc wl) = false) ->
+   dmem (xd x) = numbering_all (djl (xd x))).
+Proof. exact seq_order_is_merge_order. Qed.
+Print Assumptions C10_seq_order_is_merge_order.
+
+(*     the sequence ranges [seq, seq + count) of the records increase along the log — records of FAILED
+       writes included (the repaired code consumes their numbers), transactions' commits in between
+       included: no record ever reuses a number of an earlier one *)
+Theorem C10_seq_ranges_disjoint : forall mp rq n q0 x k1 k2 r1 r2, xreachable mp v_real rq n q0 x -> k1 < k2 ->
+  nth_error (djl (xd x)) k1 = Some r1 -> nth_error (djl (xd x)) k2 = Some r2 ->
+  (dr_seq r1 + rec_count r1 <= dr_seq r2)%N.
+Proof. exact seq_ranges_disjoint. Qed.
+Print Assumptions C10_seq_ranges_disjoint.
+
+(* 8.4 the merge limit: while a leader carries its group, the internalLen of the merged requests (the
+       members after the leader, in merge order) plus the remaining mergeLimit is the initial limit
+       min(128 KiB | 1 MiB - own, mdbFree - own); so the merged bytes never exceed the memdb's free
+       space left by the leader's own batch, nor 128 KiB (small leader), and leader + merged never
+       exceed 1 MiB (large leader, unless it is larger by itself) *)
+Theorem C10_merge_respects_limit : forall mp rq n q0 x l wl c, xreachable mp v_real rq n q0 x ->
+  nth_error (ws (xb x)) l = Some wl -> gpc_of (pc wl) = Some c ->
+  let g := getg (xd x) l in
+  lbatches c = l :: map fst (gx_merged g) /\
+  (sum_sizes (gx_merged g) + llim c = merge_limit mp (wsize wl) (lfree c))%N /\
+  (sum_sizes (gx_merged g) <= lfree c - wsize wl)%N /\
+  ((mergeThreshold mp <? wsize wl)%N = false -> (sum_sizes (gx_merged g) <= mergeSmallLimit mp)%N) /\
+  ((mergeThreshold mp <? wsize wl)%N = true -> (wsize wl + sum_sizes (gx_merged g) <= N.max (wsize wl) (mergeBigLimit mp))%N).
+Proof. exact merge_respects_limit. Qed.
+Print Assumptions C10_merge_respects_limit.
+
+(*     a request is merged iff it fits the remaining limit; the one that does not fit stops the loop as
+       `overflow` and — not dropped — is the one and only writer the lock is handed to *)
+Theorem C10_merge_decision : forall c x sz b,
+  ((llim c <? sz)%N = true -> exists c', merge_decide c x sz b = WLJournal c' /\ lover c' = Some x /\ lbatches c' = lbatches c) /\
+  ((llim c <? sz)%N = false -> exists c', merge_decide c x sz b = WLReply c' x /\ lbatches c' = lbatches c ++ [x] /\
+                                           llim c' = (llim c - sz)%N).
+Proof. exact merge_decision. Qed.
+Print Assumptions C10_merge_decision.
+
+Theorem C10_overflow_writer_gets_the_lock : forall mp rq n q0 x l wl c k e o o' s', xreachable mp v_real rq n q0 x ->
+  nth_error (ws (xb x)) l = Some wl -> pc wl = WLUnlock c k e -> lover c = Some o' ->
+  step mp (xb x) (AHandover l o) = Some s' -> o = o'.
+Proof. exact overflow_writer_gets_the_lock. Qed.
+Print Assumptions C10_overflow_writer_gets_the_lock.
+
+(* 8.5 a failing journal write: the step inserts nothing, logs the record as failed, goes to
+       unlockWrite(.., err) with that error (so every member gets it: C10_merged_result_is_groups) and
+       consumes the sequence numbers of the whole group ("fix: consume the sequence numbers of a batch
+       whose journal write failed"); afterwards no member of the failed record ever holds nil and none of
+       its records is ever inserted into the memdb *)
+Theorem C10_journal_failure_step : forall mp rq x l e x', xstep mp v_real rq x (XA (AJournalFail l e)) = Some x' ->
+  let g := getg (xd x) l in
+  dmem (xd x') = dmem (xd x) /\
+  dseq (xd x') = (dseq (xd x) + batches_len (gx_batches g))%N /\
+  exists r, djl (xd x') = djl (xd x) ++ [r] /\ dr_ok r = false /\ dr_leader r = l /\
+            dr_seq r = (dseq (xd x) + 1)%N /\ rec_count r = batches_len (gx_batches g) /\
+            exists c, (exists wl, nth_error (ws (xb x)) l = Some wl /\ pc wl = WLJournal c) /\
+                      (exists wl', nth_error (ws (xb x')) l = Some wl' /\ pc wl' = WLUnlock c 0 e) /\ e <> ROk.
+Proof. exact journal_failure_step. Qed.
+Print Assumptions C10_journal_failure_step.
+
+Theorem C10_failed_group_not_acked : forall mp rq n q0 x r i w, xreachable mp v_real rq n q0 x ->
+  In r (djl (xd x)) -> dr_ok r = false -> In i (rec_ids r) -> nth_error (ws (xb x)) i = Some w ->
+  pc w <> WRet ROk /\ pc w <> WDone ROk.
+Proof. exact failed_group_not_acked. Qed.
+Print Assumptions C10_failed_group_not_acked.
+
+Theorem C10_failed_group_not_inserted : forall mp rq n q0 x r i, xreachable mp v_real rq n q0 x ->
+  In r (djl (xd x)) -> dr_ok r = false -> In i (rec_ids r) ->
+  ~ In i (map (fun t => fst (fst t)) (dmem (xd x))).
+Proof. exact failed_group_not_inserted. Qed.
+Print Assumptions C10_failed_group_not_inserted.
+
+(* 8.6 the seeded change C04_r2 as a model variant: `sync = sync || incoming.sync` taken only in the
+       "merge batch" branch.  Witness: writer 0 (Put, no sync) leads and merges writer 1 (Put, Sync);
+       both return nil, the one record holds both and was written with sync = false — the statement
+       C10_sync_ack_implies_synced is false for that variant (the same run of the real code syncs). *)
+Definition v_seeded_C04_r2 : dvariant := {| v_sync_put := false; v_consume := true |}.
+Definition rq_sync_demo : reqtab := fun i => RQ KPut 1 (Nat.eqb i 1).
+Definition sync_demo_run : list xaction := map XA
+  [ACall 0 true true 30; ACall 1 true true 30; ASelLock 0; AFlushOk 0 4000;
+   ASelMerge 1 0; AReplyTrue 0 1; AMergeDone 0; AJournalOk 0; AApply 0; APublish 0; ARotateSkip 0;
+   AAck 0 1; ARelease 0; AReturn 0; AReturn 1]%N.
+
+Theorem C10_merged_put_loses_sync_refuted :
+  exists x, xrun wmp v_seeded_C04_r2 rq_sync_demo (xinit 2 0) sync_demo_run = Some x /\
+    (exists w, nth_error (ws (xb x)) 1 = Some w /\ pc w = WDone ROk) /\ rq_sync (rq_sync_demo 1) = true /\
+    (exists r, djl (xd x) = [r] /\ rec_ids r = [0; 1] /\ dr_ok r = true /\ dr_sync r = false) /\
+  exists x', xrun wmp v_real rq_sync_demo (xinit 2 0) sync_demo_run = Some x' /\
+    (exists r, djl (xd x') = [r] /\ rec_ids r = [0; 1] /\ dr_sync r = true).
+Proof. vm_compute. eexists. split; [reflexivity|]. repeat split; eauto 10. Qed.
+Print Assumptions C10_merged_put_loses_sync_refuted.
+
+(*     and the pre-repair behaviour (a failed journal write does not consume its sequence numbers) as a
+       variant: the failed record — which may have reached the file, e.g. when only Sync failed — and
+       the next, acknowledged one carry the same sequence number; C10_seq_ranges_disjoint is false there *)
+Definition v_no_consume : dvariant := {| v_sync_put := true; v_consume := false |}.
+Definition reuse_demo_run : list xaction := map XA
+  [ACall 0 true true 30; ACall 1 true true 30; ASelLock 0; AFlushOk 0 4000; AMergeDone 0; AJournalFail 0 ROther;
+   ARelease 0; AReturn 0; ASelLock 1; AFlushOk 1 4000; AMergeDone 1; AJournalOk 1]%N.
+
+Theorem C10_failed_write_reuses_seq_refuted :
+  exists x r1 r2, xrun wmp v_no_consume rq_sync_demo (xinit 2 0) reuse_demo_run = Some x /\
+    djl (xd x) = [r1; r2] /\ dr_ok r1 = false /\ dr_ok r2 = true /\ dr_seq r1 = dr_seq r2 /\
+  exists x' r1' r2', xrun wmp v_real rq_sync_demo (xinit 2 0) reuse_demo_run = Some x' /\
+    djl (xd x') = [r1'; r2'] /\ dr_seq r1' = 1%N /\ dr_seq r2' = 2%N.
+Proof. vm_compute. do 3 eexists. split; [reflexivity|]. repeat split. do 3 eexists. repeat split. Qed.
+Print Assumptions C10_failed_write_reuses_seq_refuted.
+
+(* Non-vacuity of section 8: five writers; writer 0 (Write, 3 records) leads and merges Put 1 (Sync),
+   Write 2 (2 records) and Delete 3; Write 4 does not fit (overflow) and is handed the lock.  The one
+   record of the first group holds 0, 1, 3, 2 in that order (the Delete joins the Put in ourBatch, which
+   was created before batch 2 was appended), is synced (writer 1 asked), numbers 1..7; the second
+   record starts at 8; the memdb was filled in that order with those numbers. *)
+Definition data_demo_reqs : list wreq :=
+  [RQ KBatch 3 false; RQ KPut 1 true; RQ KBatch 2 false; RQ KDelete 1 false; RQ KBatch 1 false].
+Definition data_demo_run : list xaction := map XA
+  [ACall 0 true false 100; ACall 1 true true 50; ACall 2 true false 60; ACall 3 true true 18; ACall 4 true false 200000;
+   ASelLock 0; AFlushOk 0 4000000;
+   ASelMerge 1 0; AReplyTrue 0 1; ASelMerge 2 0; AReplyTrue 0 2; ASelMerge 3 0; AReplyTrue 0 3; ASelMerge 4 0;
+   AJournalOk 0; AApply 0; APublish 0; ARotateSkip 0; AAck 0 1; AAck 0 2; AAck 0 3; AHandover 0 4;
+   AReturn 0; AReturn 1; AReturn 2; AReturn 3;
+   AFlushOk 4 4000000; AMergeDone 4; AJournalOk 4; AApply 4; APublish 4; ARotateSkip 4; ARelease 4; AReturn 4]%N.
+
+Example C10_data_nonvacuous :
+  match xrun wmp v_real (rq data_demo_reqs) (xinit 5 0) data_demo_run with
+  | Some x =>
+      map (fun r => (dr_ok r, dr_seq r, dr_segs r, dr_sync r)) (djl (xd x)) =
+        [(true, 1, [SG 0 3; SG 1 1; SG 3 1; SG 2 2], true); (true, 8, [SG 4 1], false)]%N /\
+      map j_batches (jlog (xb x)) = [[0; 1; 2; 3]; [4]] /\
+      dmem (xd x) = [(0%nat, 1, 3); (1%nat, 4, 1); (3%nat, 5, 1); (2%nat, 6, 2); (4%nat, 8, 1)]%N /\
+      dseq (xd x) = 8%N /\ quiescent (xb x) = true
+  | None => False
+  end.
+Proof. vm_compute. repeat split; reflexivity. Qed.
+
+(* 8.7 composition with the L2 persistence model (Store/Crash.v, property C04): read the journal log as a
+       history of the store — a successful writeJournal = PWrite count sync, a failed one = PSkipSeq count,
+       numbers consumed in between (transaction commits) = PSkipSeq gap.  Then a writer that asked for
+       Sync and holds nil is recovered, with the sequence numbers it was given, from EVERY crash image
+       after ANY later history of the store (writes, rotations, flushes, transactions, crashes, reopenings). *)
+From GL Require Import Conc.WriteMergeDataCrash.
+From GL Require Store.Crash.
+
+Theorem C10_sync_ack_is_durable : forall mp rq n x i w, xreachable mp v_real rq n 0%N x ->
+  nth_error (ws (xb x)) i = Some w -> (pc w = WRet ROk \/ pc w = WDone ROk) -> rq_sync (rq i) = true ->
+  (1 <= req_nrec (rq i))%N ->
+  exists r, In r (djl (xd x)) /\ In i (rec_ids r) /\
+    forall more img, Crash.is_image (Crash.prun (pops_of 1%N (djl (xd x)) ++ more)) img ->
+                     In (batch_of r) (Crash.recover img).
+Proof. exact sync_ack_is_durable. Qed.
+Print Assumptions C10_sync_ack_is_durable.
+
+(* 8.8 trace inclusion with data: a case accepted by the data evaluator (Corr/C10DataRun.v) is the visible
+       part of a run of the data-carrying system with the case's request table, ending with all calls
+       returned, whose journal log matches the records read back from the journal files. *)
+From GL Require Import Conc.WriteMergeDataTrace.
+
+Theorem C10_accepted_data_trace_is_a_run : forall n q0 reqs evs files complete,
+  run_dcase (CDTrace n q0 reqs evs files complete) = true ->
+  exists x, xreachable wmp v_real (rq reqs) n q0 x /\ quiescent (xb x) = true /\
+            files_ok complete (djl (xd x)) files = true.
+Proof. exact run_dcase_sound. Qed.
+Print Assumptions C10_accepted_data_trace_is_a_run.
+
+(* Non-vacuity: the run of C10_data_nonvacuous as a recorded trace with the observed data; accepted.
+   Refused: the same trace with writeJournal's observed sync argument false (seeded C04_r2), with the
+   records of the merged batch before those of ourBatch in the file, with the second putMem call
+   given the leader's sequence number, and with a merged request larger than what is left of the limit. *)
+Definition data_demo_events (sy : bool) (q2 : N) (sz4 : N) : list devent :=
+  [DE (ECall 0 true false 100); DE (ECall 1 true true 50); DE (ECall 2 true false 60); DE (ECall 3 true true 18);
+   DE (ECall 4 true false sz4);
+   DE (ESelLock 0); DE (EFlushOk 0 4000000);
+   DE (EMergeRecv 0 1); DMergeInfo 0 1 KPut 50 true; DE (EMergeTrue 0 1); DE (ESelMerged 1);
+   DE (EMergeRecv 0 2); DMergeInfo 0 2 KBatch 60 false; DE (EMergeTrue 0 2); DE (ESelMerged 2);
+   DE (EMergeRecv 0 3); DMergeInfo 0 3 KDelete 18 false; DE (EMergeTrue 0 3); DE (ESelMerged 3);
+   DE (EMergeRecv 0 4); DMergeInfo 0 4 KBatch sz4 false; DE (EMergeOverflow 0 4);
+   DJournalArgs 0 3 7 228 1 sy; DE (EJournalOk 0 1);
+   DPutMem 0 1 3; DPutMem 1 q2 2; DPutMem 2 6 2; DE (EApplied 0); DE (EPublish 0 7);
+   DE (EUnlock 3 true ROk); DE (EAckSend 0 ROk); DE (EAckSent 0); DE (EAckSend 1 ROk); DE (EAckSent 1);
+   DE (EAckSend 2 ROk); DE (EAckSent 2);
+   DE EHandover; DE EHandoverDone; DE (ERet 0 ROk); DE (ESelHanded 4); DE (ERet 1 ROk); DE (ERet 2 ROk); DE (ERet 3 ROk);
+   DE (EFlushOk 4 4000000); DJournalArgs 4 1 1 sz4 8 false; DE (EJournalOk 4 8); DPutMem 4 8 1; DE (EApplied 4);
+   DE (EPublish 4 8); DE (EUnlock 0 false ROk); DE ERelease; DE (ERet 4 ROk); DE ECloseCall; DE ECloseRet]%N.
+
+Example C10_data_trace_nonvacuous :
+  let files := [FR 1 [SG 0 3; SG 1 1; SG 3 1; SG 2 2]; FR 8 [SG 4 1]]%N in
+  run_dcase (CDTrace 5 0 data_demo_reqs (data_demo_events true 4 200000) files true) = true /\
+  run_dcase (CDTrace 5 0 data_demo_reqs (data_demo_events false 4 200000) files true) = false /\
+  run_dcase (CDTrace 5 0 data_demo_reqs (data_demo_events true 4 200000)
+               [FR 1 [SG 0 3; SG 2 2; SG 1 1; SG 3 1]; FR 8 [SG 4 1]]%N true) = false /\
+  run_dcase (CDTrace 5 0 data_demo_reqs (data_demo_events true 1 200000) files true) = false /\
+  run_dcase (CDTrace 5 0 data_demo_reqs (data_demo_events true 4 100) files true) = false.
 Proof. vm_compute. repeat split; reflexivity. Qed.
